@@ -218,7 +218,6 @@ def set_union_merge_many(list arrays):
     cdef long[:] limits = limarr
     parr = limarr - larr
     cdef long[:] pointers = parr
-    cdef uint32 limit_value = max([arr[len(arr) - 1] for arr in value_arrays]) + 1
 
     # Form a result array which we will fill with the set intersection results.
     # The output cannot be longer than the concatenation of the input arrays,
@@ -233,18 +232,17 @@ def set_union_merge_many(list arrays):
     with nogil:
         while 1:
             # Find the minimum value and its array number.
-            min_value = limit_value
             min_arrnum = -1
             for arrnum in range(num_arrays):
                 ptr = pointers[arrnum]
                 if ptr >= limits[arrnum]:
                     continue
                 value = values[ptr]
-                if value < min_value:
+                if min_arrnum == -1 or value < min_value:
                     min_value = value
                     min_arrnum = arrnum
 
-            if min_value == limit_value:
+            if min_arrnum == -1:
                 # All arrays have been exhausted.
                 break
 
